@@ -106,11 +106,20 @@ var zones = []*time.Location{
 // maxTS is 2200-01-01 in Unix seconds.
 var maxTS = time.Date(2200, 1, 1, 0, 0, 0, 0, time.UTC).Unix()
 
-// Timestamp draws an instant in [1970, 2200) with nanosecond precision in an
-// assorted zone (offsets are whole minutes, which RFC 3339 can express).
+// Timestamp draws an instant in [1684, 2200) - inside what a count of
+// nanoseconds since 1970 can express (CSV stores that) - with nanosecond
+// precision in an assorted zone (offsets are whole minutes, which RFC 3339 can
+// express). One in seven lies before 1970: there the seconds are negative while
+// the nanosecond part of the instant still counts upwards.
 func Timestamp(t *rapid.T, label string) time.Time {
 	var sec int64
-	switch rapid.IntRange(0, 5).Draw(t, label+".skind") {
+	switch rapid.IntRange(0, 6).Draw(t, label+".skind") {
+	case 6:
+		if rapid.Bool().Draw(t, label+".preedge") {
+			sec = rapid.SampledFrom([]int64{-1, -2, -60, -86400, -86401, -446774400, -1e9, -2147483648, -2147483649, -9e9}).Draw(t, label+".presec")
+		} else {
+			sec = rapid.Int64Range(-9e9, -1).Draw(t, label+".presec")
+		}
 	case 0:
 		sec = rapid.SampledFrom([]int64{0, 1, 59, 86399, 86400, 951782400, 1e9, 2147483647, 2147483648, 4102444800, maxTS - 1}).Draw(t, label+".sec")
 	case 1:
